@@ -223,3 +223,16 @@ func (c *Conn) Close() error {
 	c.R.CloseRead()
 	return nil
 }
+
+// Peek returns the number of buffered bytes and whether the stream has ended,
+// as a visible read operation on the pipe (so that decisions based on it are
+// known to the explorer).
+func (p *Pipe) Peek() (buffered int, ended bool) {
+	if vsched.Active() {
+		vsched.Step(vsched.Op1("pipe.peek:"+p.Name, p.obj(), vsched.KPipeRead))
+		return len(p.buf), p.wclosed || p.rclosed
+	}
+	p.mu.Lock()
+	defer p.mu.Unlock()
+	return len(p.buf), p.wclosed || p.rclosed
+}
